@@ -35,6 +35,28 @@ func verifyCOSE() {
 	rt.Assert(rt.Same(payload0, msg.Payload) && rt.Same(sig0, msg.Signature) && rt.Same([]byte(rawp0), []byte(msg.Headers.RawProtected)), "C01.cose.message.unchanged")
 	if err != nil {
 		rt.Assert(c == nil, "C01.cose.nil.on.error")
+		// conversely (C07): content extractable and the primitive answered "valid" for exactly this message under the leaf
+		// key => verification must not have failed
+		if len(vrfLog) > 0 && chainAsked && chainIsList && len(chainRaw) > 0 && !chainParseErr[0] {
+			if c0, cerr := e.Content(); cerr == nil && c0 != nil {
+				leaf := rt.Havoc[*x509.Certificate]("cert0")
+				a, _ := hAlg.val.(int64)
+				row := algRowOf(int(a))
+				kind, _ := rt.KeyInfo(leaf.PublicKey)
+				held := false
+				for _, v := range vrfLog {
+					if !rt.Same(v.key, leaf.PublicKey) || !rt.Same(v.sig, msg.Signature) || v.pss != (kind == rt.KindRSA) {
+						continue
+					}
+					for _, t := range tbsLog {
+						if rt.Same(t.out, v.content) && rt.Same(t.protected, []byte(msg.Headers.RawProtected)) && rt.Same(t.payload, msg.Payload) {
+							held = rt.Or(held, rt.And(v.valid, v.hash == rt.HashRow(row)))
+						}
+					}
+				}
+				rt.Assert(rt.Not(held), "C07.cose.valid.signature.is.accepted")
+			}
+		}
 		return
 	}
 	checkAcceptedCOSE(msg, c)
